@@ -8,12 +8,25 @@
 (*           the specification ("iso": either ID, with/without CRC) as an LD, *)
 (*           with the raw block, the reported fields and the number of bytes  *)
 (*           left after each Decode                                           *)
+(*   pay     payload classes: the raw block is a complete ADTS frame (same /  *)
+(*           other configuration, either ID, with CRC, nested twice, one byte *)
+(*           more / less than its length field says), starts with a sync word *)
+(*           or is just header bytes; alone and between other frames          *)
+(*   long    stream shapes frame kind x count: runs of equal frames repeated  *)
+(*           until the stream is just below / just above 2^15 .. 2^20 bytes,  *)
+(*           decoded one frame at a time through one buffer                   *)
 EXTENDS Adts, TLC, Json, Gen_AdtsSeed
 
 CONSTANTS Lens,        \* raw block lengths of the single-frame matrices
           NRandLens,   \* additional seeded random lengths per matrix row
           PoolSize,    \* how many descriptors of Pool the multi-frame streams draw from
-          NRandStreams \* seeded random 3-frame streams
+          NRandStreams,\* seeded random 3-frame streams
+          PayLens,     \* payload classes: raw lengths of the inner frame (0: the largest that fits)
+          PayOuters,   \* ... how many of Outers carry them
+          PaySeqPool,  \* ... how many Pool frames stand before / behind one in a stream
+          LongKinds,   \* long streams: how many of Kinds are used
+          LongTotals,  \* ... 2 * bits + above: the stream ends just below (above = 0) / at or above (1) 2^bits bytes
+          MaxRep       \* ... no shape with more frames than this
 
 VARIABLE c
 gvars == <<vars, c>>
@@ -36,7 +49,7 @@ AuxSeq == <<Aux0, AuxAll, AuxMix,
 Iso(id, prot, profile, sfi, chan, n, crc, aux) ==
   [by |-> "iso", obj |-> 0,
    f |-> [id |-> id, prot |-> prot, profile |-> profile, sfi |-> sfi, chan |-> chan,
-          n |-> n, fid |-> 0, crc |-> crc, aux |-> aux]]
+          n |-> n, fid |-> 0, crc |-> crc, aux |-> aux, pre |-> <<>>]]
 Lib(obj, sfi, chan, n) ==
   [by |-> "lib", obj |-> obj, f |-> LibFrame([obj |-> obj, sfi |-> sfi, chan |-> chan], n, 0, 0)]
 
@@ -62,6 +75,97 @@ Pool == << Lib(ObjLC, 4, 2, 249),                         \* frame length 256
 
 AccObjSeq == <<ObjMain, ObjLC, ObjSSR, ObjHE, ObjHEv2>>
 
+\* ---------------------------------------------------------- payload classes
+\* the frames that carry a raw block with content (their n is set by the class)
+Outers == << Lib(ObjLC, 4, 2, 1),
+             Iso(1, 0, 0, 3, 6, 1, 4660, Aux0),            \* CRC
+             Lib(ObjHEv2, 12, 7, 1),
+             Iso(0, 1, 2, 11, 5, 1, 0, AuxAll),
+             Lib(ObjMain, 1, 1, 1),
+             Iso(0, 0, 1, 4, 2, 1, 65521, AuxMix),         \* CRC = FF F1, MPEG-4 id
+             Lib(ObjSSR, 8, 3, 1),
+             Iso(1, 1, 1, 7, 1, 1, 0, Aux0),
+             Lib(ObjHE, 6, 2, 1),
+             Iso(1, 0, 2, 12, 7, 1, 65535, AuxAll),
+             Lib(ObjLC, 3, 1, 1),
+             Iso(0, 1, 0, 1, 4, 1, 0, AuxMix) >>
+
+\* an inner frame: the bytes of a raw block (pattern id 40 + nesting depth)
+Inner(id, prot, cf, m, aux, depth) ==
+  [id |-> id, prot |-> prot, profile |-> cf[1], sfi |-> cf[2], chan |-> cf[3],
+   n |-> m, fid |-> 40 + depth, crc |-> CrcOf(cf[2], cf[3], m), aux |-> aux, pre |-> <<>>]
+\* a header with layer bits 10: a sync word, a matching length, still not this specification's frame
+LayerHdr(cf, fl) == LET h == AdtsHdr(0, 1, cf[1], cf[2], cf[3], fl, Aux0) IN [h EXCEPT ![2] = h[2] + 4]
+
+PayClasses == 1..18
+\* bytes the class puts around the m innermost bytes
+PayOver(cls) == CASE cls \in {1, 2, 4, 8} -> 7   [] cls \in {3, 5} -> 9   [] cls = 6 -> 8  [] cls = 7 -> 7
+                  [] cls \in 9..14 -> 2          [] cls = 15 -> 14        [] cls = 16 -> 7
+                  [] cls = 17 -> 7               [] cls = 18 -> 9
+\* the raw block [n, pre] of class cls for the carrier d and m inner bytes
+PayOf(cls, d, m) ==
+  LET same  == <<d.f.profile, d.f.sfi, d.f.chan>>
+      other == IF same = <<0, 3, 1>> THEN <<1, 4, 2>> ELSE <<0, 3, 1>>
+      fr(g) == [n |-> FrameLen(g), pre |-> PreFrame(g)]
+  IN CASE cls = 1  -> fr(Inner(0, 1, same, m, Aux0, 1))        \* what the muxer itself writes: wrapped twice
+       [] cls = 2  -> fr(Inner(1, 1, same, m, Aux0, 1))        \* ... MPEG-2 id
+       [] cls = 3  -> fr(Inner(1, 0, same, m, Aux0, 1))        \* ... with CRC
+       [] cls = 4  -> fr(Inner(0, 1, other, m, Aux0, 1))       \* another configuration
+       [] cls = 5  -> fr(Inner(0, 0, other, m, AuxAll, 1))     \* ... with CRC
+       [] cls = 6  -> [n |-> 7 + m + 1, pre |-> PreFrame(Inner(0, 1, other, m, Aux0, 1))]   \* a frame and one byte more
+       [] cls = 7  -> [n |-> 7 + m, pre |-> PreHdr(0, 1, other[1], other[2], other[3], 7 + m + 1)] \* one byte short of its length field
+       [] cls = 8  -> fr(Inner(1, 1, other, m, AuxAll, 1))     \* every free header bit set
+       [] cls = 9  -> [n |-> 2 + m, pre |-> PreSync(1)]        \* FF F1 ..
+       [] cls = 10 -> [n |-> 2 + m, pre |-> PreSync(9)]        \* FF F9 ..
+       [] cls = 11 -> [n |-> 2 + m, pre |-> PreSync(0)]        \* FF F0 ..
+       [] cls = 12 -> [n |-> 2 + m, pre |-> PreSync(8)]        \* FF F8 ..
+       [] cls = 13 -> [n |-> 2 + m, pre |-> PreSync(15)]       \* FF FF ..
+       [] cls = 14 -> [n |-> 2 + m, pre |-> PreSync(7)]        \* FF F7 ..: layer 11
+       [] cls = 15 -> fr([Inner(0, 1, same, 7 + m, Aux0, 2) EXCEPT !.pre = PreFrame(Inner(0, 1, same, m, Aux0, 1))]) \* wrapped three times
+       [] cls = 16 -> [n |-> 7 + m, pre |-> <<Raw(LayerHdr(other, 7 + m))>>]
+       [] cls = 17 -> [n |-> 7, pre |-> PreHdr(0, 1, other[1], other[2], other[3], 7)]      \* 7 header bytes, nothing else
+       [] cls = 18 -> [n |-> 9, pre |-> PreHdr(1, 0, same[1], same[2], same[3], 9) \o <<U16(65521)>>] \* header + CRC, nothing else
+\* m = 0 stands for the largest block the carrier takes
+PayLen(cls, d, m) == IF m = 0 THEN MaxFrameLen - HdrSize(d.f.prot) - PayOver(cls) ELSE m
+Carry(d, cls, m) == LET p == PayOf(cls, d, PayLen(cls, d, m)) IN [d EXCEPT !.f.n = p.n, !.f.pre = p.pre]
+
+\* -------------------------------------------------------------- long streams
+\* frame kinds of the long streams (size class x writer)
+Kinds == << Lib(ObjLC, 4, 2, 300),                        \* an ordinary frame: 307 bytes
+            Iso(1, 0, 0, 3, 6, 8182, 4660, Aux0),         \* CRC, frame length 8191
+            Iso(0, 1, 1, 4, 2, 1, 0, AuxMix),             \* 8 bytes
+            Lib(ObjHEv2, 12, 7, 8184),                    \* frame length 8191
+            Iso(0, 0, 2, 11, 5, 2039, 65521, AuxAll),     \* CRC = FF F1, frame length 2048
+            Lib(ObjMain, 1, 1, 1),                        \* 8 bytes
+            Iso(1, 1, 1, 7, 1, 8000, 0, Aux0),
+            Lib(ObjSSR, 8, 3, 2041) >>                    \* frame length 2048
+Pow2(b) == CASE b = 15 -> 32768 [] b = 16 -> 65536 [] b = 17 -> 131072 [] b = 18 -> 262144
+             [] b = 19 -> 524288 [] b = 20 -> 1048576
+\* how many units of sz bytes end just below (above = 0) / at or above (1) 2^bits bytes
+Target(t) == Pow2(t \div 2)
+Above(t)  == t % 2 = 1
+RepFor(sz, t) == IF Above(t) THEN (Target(t) + sz - 1) \div sz ELSE (Target(t) - 1) \div sz
+\* a run: rep copies of the frame d (distinct raw blocks); a shape: the runs in turn, cyc times
+Run(d, rep) == [d |-> d, rep |-> rep]
+RunLen(r) == r.rep * FrameLen(r.d.f)
+RECURSIVE RunsLen(_)
+RunsLen(rs) == IF rs = <<>> THEN 0 ELSE RunLen(Head(rs)) + RunsLen(Tail(rs))
+RunsCount(rs) == IF rs = <<>> THEN 0 ELSE rs[1].rep + (IF Len(rs) > 1 THEN rs[2].rep ELSE 0)
+ShapeOf(k) ==
+  CASE k[1] = "long"  -> [runs |-> <<Run(Kinds[k[2]], 1)>>,
+                          cyc  |-> RepFor(FrameLen(Kinds[k[2]].f), k[3])]
+    [] k[1] = "long2" -> LET rs == <<Run(Kinds[k[2]], k[3]), Run(Kinds[k[4]], k[5])>>
+                         IN [runs |-> rs, cyc |-> RepFor(RunsLen(rs), k[6])]
+    \* the first kind up to half of the total, then the second
+    [] k[1] = "longh" -> LET a == Kinds[k[2]]  b == Kinds[k[3]]
+                             ra == (Target(k[4]) \div 2) \div FrameLen(a.f)
+                             rest == Target(k[4]) - ra * FrameLen(a.f)
+                             rb == IF Above(k[4]) THEN (rest + FrameLen(b.f) - 1) \div FrameLen(b.f)
+                                   ELSE (rest - 1) \div FrameLen(b.f)
+                         IN [runs |-> <<Run(a, ra), Run(b, rb)>>, cyc |-> 1]
+ShapeValid(sh) == /\ sh.cyc >= 1 /\ \A i \in 1..Len(sh.runs) : sh.runs[i].rep >= 1
+                  /\ sh.cyc * RunsCount(sh.runs) <= MaxRep
+
 LensFor(prot, base) == {n \in Lens \cup {RandLen(base + k, MaxFrameLen - HdrSize(prot)) : k \in 1..NRandLens} :
                           HdrSize(prot) + n <= MaxFrameLen}
 
@@ -81,6 +185,12 @@ Keys ==
   \cup {<<"seq2", i, j>> : i \in 1..PoolSize, j \in 1..PoolSize}
   \cup {<<"seq3", i, j, k>> : i \in 1..PoolSize, j \in 1..PoolSize, k \in 1..PoolSize}
   \cup {<<"rseq", k>> : k \in 1..NRandStreams}
+  \cup {<<"pay", o, cls, m>> : o \in 1..PayOuters, cls \in 1..16, m \in PayLens}
+  \cup {<<"pay", o, cls, 1>> : o \in 1..PayOuters, cls \in 17..18}
+  \cup {<<"pseq", i, o, cls, j>> : i \in 1..PaySeqPool, o \in 1..2, cls \in PayClasses, j \in 1..PaySeqPool}
+  \cup {<<"long", i, t>> : i \in 1..LongKinds, t \in LongTotals}
+  \cup {<<"long2", i, a, j, b, t>> : i \in 1..LongKinds, a \in {1, 3}, j \in 1..LongKinds, b \in {1, 2}, t \in LongTotals}
+  \cup {<<"longh", i, j, t>> : i \in 1..LongKinds, j \in 1..LongKinds, t \in LongTotals}
 
 \* seeded random length for a matrix row (row number from the fields)
 RowLen(id, prot, p, s, ch, k) ==
@@ -103,6 +213,9 @@ StreamOf(k) ==
                             LET d == Pool[1 + (Rnd(20000 + 7 * k[2] + i) % Len(Pool))]
                             IN WithLen(d, RandLen(30000 + 7 * k[2] + i, MaxFrameLen - HdrSize(d.f.prot)))]
 
+    [] k[1] = "pay"    -> <<Carry(Outers[k[2]], k[3], k[4])>>
+    [] k[1] = "pseq"   -> <<Pool[k[2]], Carry(Outers[k[3]], k[4], 6), Pool[k[5]]>>
+
 StreamValid(ds) == \A i \in 1..Len(ds) : ValidFrame(ds[i].f) /\ ConfigOk(ds[i].f)
 
 \* ------------------------------------------------------------------ cases
@@ -115,7 +228,7 @@ StreamCase(k, ds0) ==
      LET d == ds[i]  f == d.f IN
        [by  |-> d.by,
         asc |-> IF d.by = "lib" THEN AscBytes(d.obj, f.sfi, f.chan) ELSE <<>>,
-        ld  |-> FrameLD(f),
+        ld  |-> FrameLD(f), hf |-> Len(HeadLD(f)),
         \* expected outcome of the i-th Decode and abstract state after it
         exp |-> [raw     |-> [n |-> f.n, id |-> f.fid],
                  prot    |-> f.prot,
@@ -124,6 +237,27 @@ StreamCase(k, ds0) ==
                  hz      |-> Hz(f.sfi),
                  size    |-> ByteLen(FrameLD(f)),
                  left    |-> ByteLen(StreamLD([j \in 1..(Len(ds) - i) |-> ds[i + j].f]))]]]]
+
+\* a long stream: the runs in turn, cyc times over; `left` is what remains behind the last frame of
+\* the run in the last cycle; the remainder behind every other frame follows from size and total
+LongCase(k, sh) ==
+  LET rs == [i \in 1..Len(sh.runs) |-> [sh.runs[i] EXCEPT !.d.f.fid = i]]
+      cl == RunsLen(rs) IN
+  [kind |-> "stream", fam |-> k[1], mask |-> NamedMask, cyc |-> sh.cyc, total |-> sh.cyc * cl,
+   frames |-> [i \in 1..Len(rs) |->
+     LET d == rs[i].d  f == d.f IN
+       [by  |-> d.by, rep |-> rs[i].rep,
+        asc |-> IF d.by = "lib" THEN AscBytes(d.obj, f.sfi, f.chan) ELSE <<>>,
+        ld  |-> FrameLD(f), hf |-> Len(HeadLD(f)),
+        exp |-> [raw     |-> [n |-> f.n, id |-> f.fid],
+                 prot    |-> f.prot,
+                 profile |-> f.profile, sfi |-> f.sfi, chan |-> f.chan,
+                 obj     |-> ProfileObj(f.profile),
+                 hz      |-> Hz(f.sfi),
+                 size    |-> ByteLen(FrameLD(f)),
+                 left    |-> RunsLen([j \in 1..(Len(rs) - i) |-> rs[i + j]])]]]]
+
+IsLongKey(k) == k[1] \in {"long", "long2", "longh"}
 
 SfiSeq  == [i \in 1..16 |-> i - 1] \o <<17, 20, 28, 255>>
 ChanSeq == [i \in 1..16 |-> i - 1] \o <<17, 23, 255>>
@@ -150,12 +284,15 @@ CaseOf(k) ==
           profile |-> [i \in 1..256 |-> IF (i - 1) \in AcceptedObjs THEN ObjProfile(i - 1) ELSE 255],
           \* object type per ADTS profile 0..2
           obj |-> [p \in 1..3 |-> ProfileObj(p - 1)]]
+    [] IsLongKey(k) -> LongCase(k, ShapeOf(k))
     [] OTHER -> StreamCase(k, StreamOf(k))
 
 IsStreamKey(k) == k[1] \notin {"asc", "ascm", "hz", "conv"}
 
+KeyValid(k) == IF IsLongKey(k) THEN ShapeValid(ShapeOf(k)) /\ (k[1] \in {"long2", "longh"} => k[2] # k[IF k[1] = "long2" THEN 4 ELSE 3])
+               ELSE IsStreamKey(k) => StreamValid(StreamOf(k))
 GenInit == /\ Init
-           /\ c \in {k \in Keys : IsStreamKey(k) => StreamValid(StreamOf(k))}
+           /\ c \in {k \in Keys : KeyValid(k)}
 GenNext == UNCHANGED gvars
 
 Emit == PrintT(<<"CASE", ToJson(CaseOf(c))>>)
